@@ -382,6 +382,15 @@ func (p *Program) externMods(f *ssa.Function, c *ssa.CallCommon, out ModSet) {
 				out.add(p.sliceArray(st.Elem()), ModHard)
 			}
 		}
+	case "sort.Slice":
+		// permutes the elements of the slice in place
+		if len(c.Args) == 2 {
+			if mi, ok := c.Args[0].(*ssa.MakeInterface); ok {
+				if st, ok := mi.X.Type().Underlying().(*types.Slice); ok {
+					out.add(p.sliceArray(st.Elem()), ModHard)
+				}
+			}
+		}
 	case "errors.As":
 		// writes the target cell
 		if len(c.Args) == 2 {
